@@ -104,7 +104,12 @@ def run_path(spec, fnode, script):
     # `raises` conditions speak about the entry values of the parameters (old_env) and the
     # current heap; old(...)/acq(...) reach the entry / last-acquire heap
     e = Env(old_env)
-    return {exn: ex.eval_spec(c, e) for exn, c in spec.raises.items()}
+    saved_heap, saved_store = ex.heap, ex.store
+    ex.heap, ex.store = ex.old_heap, ex.old_store   # entry state (acq(...) switches to the last-acquire state itself)
+    try:
+      return {exn: ex.eval_spec(c, e) for exn, c in spec.raises.items()}
+    finally:
+      ex.heap, ex.store = saved_heap, saved_store
   ex.old_env, ex.old_store = old_env, ex.store.copy()
   ex.old_heap = dict(ex.heap)
   ex.heap_written = set()
